@@ -75,6 +75,7 @@ def toPairs : Native → Option (List (Str × Native))
   | .dict kvs => some kvs
   | .pairs kvs => some kvs
   | .list [] => some []
+  | .text [] => some []          -- iterating '' yields nothing
   | _ => none
 
 /-- what iterating a native yields; `none` = TypeError (not iterable) -/
